@@ -153,6 +153,44 @@ func commentBag(src string) map[string]int {
 	return m
 }
 
+// commentBagLex is commentBag for arbitrary accepted text: a '#' that opens a
+// line counts only outside string literals (the tokenizer lets a literal run
+// over a line end, and the rest of it may look like a comment line).
+func commentBagLex(src string) map[string]int {
+	m := map[string]int{}
+	inStr, lineStart := false, true
+	for i := 0; i < len(src); i++ {
+		c := src[i]
+		switch {
+		case inStr:
+			if c == '\\' && i+1 < len(src) {
+				i++
+			} else if c == '"' {
+				inStr = false
+			}
+			lineStart = false
+		case c == '"':
+			inStr, lineStart = true, false
+		case c == '\n':
+			lineStart = true
+		case c == ' ' || c == '\t' || c == '\r':
+		case c == '#':
+			j := strings.IndexByte(src[i:], '\n')
+			if j < 0 {
+				j = len(src) - i
+			}
+			if lineStart {
+				m[strings.TrimSpace(src[i:i+j])]++
+			}
+			i += j - 1
+			lineStart = false
+		default:
+			lineStart = false
+		}
+	}
+	return m
+}
+
 func firstDiff(a, b string) string {
 	n := len(a)
 	if len(b) < n {
